@@ -1,4 +1,5 @@
 #!/bin/bash
+export VERIF_EVIDENCE_DIR=/tmp/verif-changed-tree-evidence   # evidence of runs against a changed tree must not land in /verif/evidence
 # seedtest.sh <patch.diff> <prop> [prop...] : apply a seeded change to /repo, run the quick checks, undo. Prints exit codes.
 P=$1; shift
 cd /repo && git diff --quiet || { echo "/repo not clean"; exit 2; }
